@@ -161,19 +161,23 @@ impl EventGen for Container {
                 events.extend(&evlist);
                 events.push(OutputEvent::End(self.0.name.clone()));
 
-                if self.0.name == "defs" || self.0.name == "symbol" {
-                    bbox = None;
-                } else if bbox.is_some() {
-                    new_el.content_bbox = bbox;
-                    context.update_element(&new_el);
-                }
                 // Content of these containers is not rendered where it stands (it is
                 // referenced from elsewhere), so it does not add to the parent's extent.
                 // Their own content box stays registered, e.g. for `clip-path` lookups.
-                if matches!(
+                let referenced_only = matches!(
                     self.0.name.as_str(),
                     "clipPath" | "marker" | "mask" | "pattern" | "linearGradient" | "radialGradient" | "filter"
-                ) {
+                );
+                if self.0.name == "defs" || self.0.name == "symbol" {
+                    bbox = None;
+                } else if bbox.is_some() || referenced_only {
+                    // a clipPath etc. is registered even when its content has no computable
+                    // box (lengths in percent, no content): a `url(#id)` naming it is then
+                    // known to be satisfied, just without an effect on the extent
+                    new_el.content_bbox = bbox;
+                    context.update_element(&new_el);
+                }
+                if referenced_only {
                     bbox = None;
                 }
 
